@@ -10,7 +10,10 @@ package actionlint
 
 //@ func (*parser).parseMapping
 //@   ensures [C08] !caseSensitive ==> (forall j :: 0 <= j && j < len(result) ==> folded(result[j].id))
+//@   ensures [C13] !allowEmpty && len(result) == 0 ==> len(p.errors) > old(len(p.errors))
+//@   at_call [C13] (*parser).errorfAt: keys.has(id)
 //@   loop "i < len(n.Content)":
+//@     invariant [C13] len(p.errors) >= old(len(p.errors))
 //@     invariant [C01] 0 <= i && i % 2 == 0
 //@     invariant [C08] !caseSensitive ==> (forall j :: 0 <= j && j < len(m) ==> folded(m[j].id))
 //@     decreases len(n.Content) - i
